@@ -38,6 +38,8 @@ type boxStats struct {
 	EventCounts    map[string]int `json:"transitions_by_event"`
 	Sim            simStats       `json:"library_executions"`
 	MaxBacklog     int            `json:"max_apply_backlog_committed_minus_applied"`
+	CampBacklog    int            `json:"campaigns_executed_with_committed_conf_changes_unapplied"`
+	CampRefused    int            `json:"campaigns_executed_and_refused_because_of_unapplied_conf_changes"`
 	WallS          float64        `json:"wall_s"`
 	Stopped        string         `json:"stopped,omitempty"`
 }
@@ -194,6 +196,8 @@ func (co *coord) runBox(bi int, deadline time.Time) *boxStats {
 		st.Sim.ThawFeeds += ss.ThawFeeds
 		st.Sim.Validated += ss.Validated
 		st.Sim.Lookahead += ss.Lookahead
+		st.CampBacklog += ss.CampBacklog
+		st.CampRefused += ss.CampRefused
 		for _, v := range viols {
 			co.noteViol(box, v)
 			st.Poisoned++
@@ -422,7 +426,7 @@ func (co *coord) runBox(bi int, deadline time.Time) *boxStats {
 			co.samples = append(co.samples, map[string]interface{}{"box": box.ID, "why": why, "events": lines})
 		}
 		addSample("deepest path", deepest)
-		for _, b := range []int{bit(fCommitOlderTerm), bit(fTruncation), bit(fSnapApplied), bit(fConfApplied), bit(fTwoLeaders), bit(fSnapBehindCompact)} {
+		for _, b := range []int{bit(fCommitOlderTerm), bit(fTruncation), bit(fSnapApplied), bit(fConfApplied), bit(fTwoLeaders), bit(fSnapBehindCompact), bit(fCampaignRefused), bit(fSnapWhileHeld)} {
 			if id, ok := firstWith[b]; ok && len(co.samples) < 12 {
 				addSample("first path with "+flagNames[b], id)
 			}
@@ -473,7 +477,7 @@ func run(prop string) int {
 	os.Setenv("RAFTMC_COORD", strconv.Itoa(os.Getpid()))
 	total := 100 * time.Second
 	if tier == "thorough" {
-		total = 17 * time.Minute
+		total = 24 * time.Minute // 17 min for the boxes up to round 2 + 7 min for the apply-lag boxes B10 / B11
 	}
 	if s := os.Getenv("RAFTMC_BUDGET_S"); s != "" {
 		if n, err := strconv.Atoi(s); err == nil {
@@ -614,8 +618,46 @@ func run(prop string) int {
 		"stale_msgsnap_handled_after_receiver_compacted_beyond_it = a MsgSnap of a term the receiver accepts, delivered when the receiver's own storage already starts at a higher snapshot index " +
 		"(the library has to recognise it as obsolete without being able to look up the term at that index)"
 	cov["snapshot_compaction_coverage"] = snapcov
+	// apply lag (boxes B10 / B11): the same for the events and regions that exist only when a
+	// node applies asynchronously
+	lagcov := map[string]interface{}{}
+	for _, b := range []int{bit(fWhileHeld), bit(fPageApplied), bit(fCrashHeld), bit(fSnapWhileHeld)} {
+		lagcov[flagNames[b]] = agg[flagNames[b]]
+	}
+	campBacklog, campRefused := 0, 0
+	for _, st := range co.stats {
+		campBacklog += st.CampBacklog
+		campRefused += st.CampRefused
+	}
+	lagcov["campaigns_executed_with_committed_conf_changes_unapplied"] = campBacklog
+	lagcov["campaigns_executed_and_refused_because_of_unapplied_conf_changes"] = campRefused
+	lagcov["campaigns_started_with_committed_conf_changes_unapplied"] = agg[flagNames[bit(fCampaignBacklog)]]
+	lagEv := map[string]int{}
+	maxBacklog := 0
+	var lagBoxes []string
+	for _, st := range co.stats {
+		for _, k := range []uint8{evLag, evApply, evUnlag} {
+			lagEv[evNames[k]] += st.EventCounts[evNames[k]]
+		}
+		if st.MaxBacklog > maxBacklog {
+			maxBacklog = st.MaxBacklog
+		}
+		if st.Box != nil && st.Box.Bud.Lags > 0 {
+			lagBoxes = append(lagBoxes, st.Box.ID)
+		}
+	}
+	lagcov["events"] = lagEv
+	lagcov["max_apply_backlog_committed_minus_applied"] = maxBacklog
+	lagcov["boxes_with_apply_lag_in_the_alphabet"] = lagBoxes
+	lagcov["legend"] = "lag(n): the application of n applies asynchronously - a Ready with committed entries is persisted and sent, its committed page and Advance are held, and until apply(n) / unlag(n) " +
+		"every input to n (Step, Campaign, Tick, Propose, ...) calls the library without a Ready cycle, as etcd's node.run does between Ready and Advance; " +
+		"campaigns_executed_with_committed_conf_changes_unapplied = Campaign() executed on a node whose backlog (applied, committed] contains a configuration change, ..._refused_... = the node changed neither state nor term " +
+		"(such a campaign leaves the state unchanged and is therefore not a recorded transition; both are counted where the library call is executed), campaigns_started_... = recorded transitions in which such a node did start an election (0 on a correct library); " +
+		"max_apply_backlog = largest committed - applied of any node in any state (0 in every box without lag)"
+	cov["apply_lag_coverage"] = lagcov
 	assumptions := []string{
-		"a node's local step and the handling of the Ready structs it produces (persist, send, apply, Advance) form one atomic transition; a crash in between is represented by crash + message loss",
+		"a node's local step and the handling of the Ready structs it produces (persist, send, apply, Advance) form one atomic transition; a crash in between is represented by crash + message loss. Exception: boxes with lag in their alphabet (B10, B11): a node in lag mode persists and sends a Ready with committed entries but holds its committed page and its Advance; until apply / unlag the library is called without a Ready cycle (no further Ready is taken while one is held, like etcd's node.run). The application installs a Ready's snapshot when it persists the Ready (raftexample's order), before the held page",
+		"while a node holds a Ready the state key additionally contains the held page (index range, content hash), what its Advance will mark stable, and what the RawNode has not handed out: unstable entries, unstable snapshot boundary and queued messages, read through reflection offsets (raft.msgs, raftLog.unstable); the lag flag is application state and survives a crash, a held Ready does not",
 		"elections are started only by the campaign event: ElectionTick is larger than any number of ticks in a run (pass 1) or the randomised election timeout is pinned (passes with PreVote/CheckQuorum)",
 		"MemoryStorage stands for the persistent store; everything written to it survives a crash",
 		"states are de-duplicated on a 64-bit hash of the canonical serialisation",
